@@ -35,11 +35,15 @@ var clientStreamOpen = fmt.Sprintf("<?xml version='1.0'?><stream:stream to='%%s'
 func (t *XMPPTransport) Connect() (string, error) {
 	var err error
 
-	t.conn, err = net.DialTimeout("tcp", t.Config.Address, time.Duration(t.Config.ConnectTimeout)*time.Second)
+	conn, err := net.DialTimeout("tcp", t.Config.Address, time.Duration(t.Config.ConnectTimeout)*time.Second)
 	if err != nil {
-		// The server may just be restarting: failing to reach it is not a reason to stop trying
+		// The server may just be restarting: failing to reach it is not a reason to stop trying.
+		// t.conn is left as it was: the keepalive of the lost session can still be running while the
+		// application retries (it is only stopped once the Disconnected handler has returned), and it
+		// must find a connection to ping - a dead one - rather than nil.
 		return "", NewConnError(err, false)
 	}
+	t.conn = conn
 
 	// A new TCP connection is never secure, whatever the previous one was
 	t.isSecure = false
